@@ -85,24 +85,39 @@ def run(eng, rep, tier):
               "it, the empty word included, are lost", s2, site=site_of(prog, f2, f2.node))
 
     # -------------------------------------------------------------- C11.2 sibling dispatch
+    # decided by analysing each sibling with `other` typed as a Regex, as each finite-automaton class, and as a value of
+    # an unsupported type: the first two must come back with a result and never raise NotImplementedError, the last
+    # must leave by NotImplementedError on every path (wherever the type test and the raise are written)
+    from ..av import AV as _AV
+    from .flow import escaping_raises, short_exc
+    REGEX_Q = prog.cls("Regex").qname
+    fa_classes = [q for q in prog.subclasses(prog.cls("FiniteAutomaton").qname) if q not in eng.abstract]
+
+    def outcome(f, cq, ty):
+        other = _AV(types=frozenset({ty}), alias=frozenset({("p:other", ())}))
+        s_ = interp.run_entry(f, cq, args=[other])
+        # raises of the dispatcher itself (entry frame and its private helpers), not of the algorithms it calls
+        excs = {short_exc(x) for ev, _ in events(s_, "raise", own=True) if not ev.caught for x in ev.exc}
+        returns = any(ev.kind == "ret" for ev in s_.events)
+        return returns, excs, s_
     for cname in ("CFG", "PDA", "IndexedGrammar"):
         f = prog.method(cname, "intersection")
-        txt = [ast.unparse(s.test) for s in ast.walk(f.node) if isinstance(s, ast.If)]
-        has_regex = any("isinstance" in t and "Regex" in t for t in txt)
-        has_fa = any("isinstance" in t and "FiniteAutomaton" in t for t in txt)
-        raises = any(isinstance(s, ast.Raise) and s.exc is not None and "NotImplementedError" in ast.unparse(s.exc)
-                     for s in ast.walk(f.node))
-        ob.decide("R7", "C11.2", f, "dispatch:" + cname, has_regex and has_fa and raises,
-                  "accepts Regex and FiniteAutomaton, otherwise raises NotImplementedError",
-                  "%s.intersection does not dispatch on Regex / FiniteAutomaton / NotImplementedError like its siblings"
-                  % cname, None, site=site_of(prog, f, f.node))
-        s = interp.run_entry(f, prog.cls(cname).qname)
-        own = [ev for ev in s.events if ev.kind == "raise" and not ev.caught]
-        badr = [ev for ev in own if any(x.rsplit(".", 1)[-1] != "NotImplementedError" for x in ev.exc)]
-        ob.decide("R6", "C11.2", f, "dispatcher-raises-only-NotImplementedError:" + cname, bool(own) and not badr,
-                  "the dispatcher itself only raises NotImplementedError",
-                  "%s.intersection raises %s for an unsupported operand" % (cname, badr[0].exc if badr else "nothing"), s,
-                  site=(badr[0].site.to_json() if badr else site_of(prog, f, f.node)))
+        cq = prog.cls(cname).qname
+        good, why = True, ""
+        for ty in [REGEX_Q] + fa_classes:
+            returns, excs, _s = outcome(f, cq, ty)
+            if not returns or "NotImplementedError" in excs:
+                good, why = False, "%s operand: returns=%s, raises %s" % (ty.rsplit(".", 1)[-1], returns, sorted(excs))
+        returns, excs, s_bad = outcome(f, cq, "int")
+        ob.decide("R7", "C11.2", f, "dispatch:" + cname, good,
+                  "accepts a Regex and every finite-automaton class (returns a result, no NotImplementedError)",
+                  "%s.intersection does not accept the documented operand types like its siblings (%s)" % (cname, why), None,
+                  site=site_of(prog, f, f.node))
+        ob.decide("R6", "C11.2", f, "dispatcher-raises-only-NotImplementedError:" + cname,
+                  excs == {"NotImplementedError"} and not returns,
+                  "an operand of another type leaves by NotImplementedError on every path",
+                  "%s.intersection with an unsupported operand: returns=%s, raises %s (documented: NotImplementedError)"
+                  % (cname, returns, sorted(excs) or "nothing"), s_bad, site=site_of(prog, f, f.node))
 
     # -------------------------------------------------------------- C11.3 empty word, start rules, shapes
     eps = [ev for ev in summ.events if ev.kind == "new" and ev.callee == PROD and len(ev.args) > 1 and
